@@ -28,12 +28,9 @@ func restoreIndex(rootGoitPath, path string, index *store.Index, tree *object.Tr
 		// restore index
 		if isNodeFound { // if the file is updated
 			// change hash
-			isUpdated, err := index.Update(rootGoitPath, node.Hash, []byte(path))
-			if err != nil {
+			// index is not updated if the entry is already the same as HEAD, which is not an error
+			if _, err := index.Update(rootGoitPath, node.Hash, []byte(path)); err != nil {
 				return fmt.Errorf("fail to update index: %w", err)
-			}
-			if !isUpdated {
-				return errors.New("fail to restore index")
 			}
 		} else { // if the file is newly added
 			// delete entry
